@@ -11,6 +11,7 @@ from batches import cfi_unwind as cu
 TRUSTED = list(core.TRUSTED) + [
     'ArrayVec', 'clear', 'try_push', 'try_insert', 'pop', 'swap_remove', 'default', 'deref', 'deref_mut', 'clone',
     'axiom_iter_mut_has_resolved', '<RegisterRule<T> as Clone>::clone', '<CfaRule<T> as Clone>::clone',
+    'mul', 'instructions', 'next_row',
 ]
 VERUS_ARGS = ['--rlimit', '40']
 RETRY_RLIMIT = 120
@@ -201,6 +202,7 @@ use vstd::std_specs::iter::IteratorSpec;''')
     populate_cfa_rule(ctx, sk, cfi)
     populate_rule_map(ctx, sk, cfi, C, M)
     populate_row(ctx, sk, cfi, C, M)
+    populate_initialize_env(ctx, sk, cfi, C, M)
     populate_context(ctx, sk, cfi, C, M)
     return sk
 
@@ -244,31 +246,47 @@ SET_INV = '''invariant_except_break
                 forall|i: int| 0 <= i < verif_k ==> (#[trigger] verif_os[i]).0 != register,
                 forall|i: int| 0 <= i < verif_k ==> #[trigger] verif_fs[i] == verif_os[i],
             ensures
-                verif_k == verif_os.len(), verif_fs.len() == verif_os.len(),
+                verif_k == verif_os.len(), // [C06:rules-set]
+                verif_fs.len() == verif_os.len(),
                 forall|i: int| 0 <= i < verif_k ==> (#[trigger] verif_os[i]).0 != register,
                 forall|i: int| 0 <= i < verif_k ==> #[trigger] verif_fs[i] == verif_os[i],
             decreases verif_os.len() - verif_k'''
 
-SET_HIT = '''proof {
-                    let i0 = verif_k - 1;
-                    assert(rules_first_at(verif_os, register, i0));
-                    lemma_rules_update(verif_os, register, i0, rule);
-                    lemma_rules_get(verif_os, register, i0);
-                    assert(has_resolved(verif_iter) ==> verif_fs =~= verif_os.update(i0, (register, rule))) by {
-                        if has_resolved(verif_iter) {
-                            axiom_iter_mut_has_resolved(verif_iter);
-                            assert forall|i: int| 0 <= i < verif_os.len() implies #[trigger] verif_fs[i] == verif_os.update(i0, (register, rule))[i] by {
-                                if i > i0 { assert(verif_iter.remaining()[i - verif_k] == verif_r0[i]); }
-                            }
+# the hit path (`*old_rule = rule; return Ok(())` in the real body) is supported by two facts that are NOT anchored in the body text,
+# so that an edit of the body reaches the verifier instead of losing an anchor:
+SET_PRE = '''proof {
+            assert forall|i0: int| rules_first_at(verif_os, register, i0) implies
+                #[trigger] rules_map(verif_os.update(i0, (register, rule))) == rules_map(verif_os).insert(register, rule)
+                && rules_nodup(verif_os.update(i0, (register, rule))) && rules_map(verif_os).contains_key(register) by {
+                lemma_rules_update(verif_os, register, i0, rule);
+                lemma_rules_get(verif_os, register, i0);
+            }
+        }'''
+
+SET_STEP = '''proof {
+                verif_k = verif_k + 1;
+                let i0 = verif_k - 1;
+                // if this entry ends up holding (register, rule) and the iterator is dropped, the slice is os[i0 := (register, rule)]
+                assert(has_resolved(verif_iter) && *final(verif_r0[i0]) == (register, rule) ==> verif_fs =~= verif_os.update(i0, (register, rule))) by {
+                    if has_resolved(verif_iter) && *final(verif_r0[i0]) == (register, rule) {
+                        axiom_iter_mut_has_resolved(verif_iter);
+                        assert forall|i: int| 0 <= i < verif_os.len() implies #[trigger] verif_fs[i] == verif_os.update(i0, (register, rule))[i] by {
+                            if i > i0 { assert(verif_iter.remaining()[i - verif_k] == verif_r0[i]); }
                         }
                     }
-                }'''
+                }
+                if verif_os[i0].0 == register { assert(rules_first_at(verif_os, register, i0)); lemma_rules_get(verif_os, register, i0); }
+            }'''
 
 SET_MISS = '''proof {
-            assert(verif_fs =~= verif_os);
-            lemma_rules_push(verif_os, register, rule);
-            lemma_rules_miss(verif_os, register);
-            lemma_rules_len(verif_os);
+            // guarded so that a body that leaves the loop early fails the tagged clauses, not this hint
+            if verif_k == verif_os.len() && (forall|i: int| 0 <= i < verif_k ==> (#[trigger] verif_os[i]).0 != register) {
+                lemma_rules_push(verif_os, register, rule);
+                lemma_rules_miss(verif_os, register);
+                lemma_rules_len(verif_os);
+            }
+            assert(verif_k == verif_os.len() && verif_fs.len() == verif_os.len() && (forall|i: int| 0 <= i < verif_k ==> #[trigger] verif_fs[i] == verif_os[i])
+                   ==> verif_fs =~= verif_os);
         }'''
 
 
@@ -338,12 +356,11 @@ def populate_rule_map(ctx, sk, cfi, C, M):
         raise Lost('RegisterRuleMap::set: try_push anchor')
     rrm.splice('set', ret='res', canary=True, requires=s['requires'] + ['old(self).inv()'], ensures=s['ensures'] + ['final(self).inv()'],
                loops={0: SET_INV}, attrs='#[verifier::loop_isolation(false)]\n    #[verifier::allow_complex_invariants]',
-               before=[('let verif_slice = &mut *self.rules;', 'let ghost verif_os = self.rules.view();'),
+               before=[('let verif_slice = &mut *self.rules;', 'let ghost verif_os = self.rules.view();\n        ' + SET_PRE),
                        ('let mut verif_iter = verif_slice.iter_mut();', 'let ghost verif_fs = final(verif_slice)@;'),
-                       ('return Ok(());', SET_HIT),
                        (push_anchor.group(0), SET_MISS)],
                after=[('let mut verif_iter = verif_slice.iter_mut();', 'let ghost verif_r0 = verif_iter.remaining(); let ghost mut verif_k: int = 0;'),
-                      ('let old_rule = &mut verif_entry.1;', 'proof { verif_k = verif_k + 1; }')])
+                      ('let old_rule = &mut verif_entry.1;', SET_STEP)])
     rrm.own(OWN)
     sk.add('read::cfi', rrm)
 
@@ -376,8 +393,68 @@ def populate_row(ctx, sk, cfi, C, M):
     sk.add('read::cfi', row)
 
 
+
 # ----------------------------------------------------------------------------------------------------------------------
-# 5. UnwindContext
+# 5. what UnwindContext::initialize needs: the CIE (struct + the three accessors it is read through), UnwindTable::new_for_cie
+#    (verified), UnwindTable::next_row (stub carrying the contract VERIFIED by B-cfi_unwind, read from cfi_unwind.py)
+# ----------------------------------------------------------------------------------------------------------------------
+UNWIND_SECTION_MODEL = """
+// model of `trait UnwindSection<R>: Clone + Debug + _UnwindSectionPrivate<R>`: only the bound is needed here (the section is
+// handed through to CommonInformationEntry::instructions, a stub); the real trait is under contract in B-cfi_entries
+pub trait UnwindSection<R: Reader>: Clone + Debug {}
+"""
+
+NEXT_ROW_SAME_CTX = 'final(self).g_fctx() == old(self).g_fctx()'
+
+
+def wrapping_model():
+    mark = '// ---- model of read/util.rs'
+    if mark not in cu.MODEL or 'pub struct Wrapping<T>' not in cu.MODEL:
+        raise Lost('cfi_unwind.MODEL: Wrapping model')
+    return cu.MODEL.split(mark)[0]
+
+
+def populate_initialize_env(ctx, sk, cfi, C, M):
+    sk.mods['read::cfi']['uses'] += '\nuse vstd::std_specs::ops::*;'
+    sk.add('read::cfi', wrapping_model(), label='Wrapping')
+    sk.add('read::cfi', cfi.item(r'^pub struct SectionBaseAddresses').clean())
+    sk.add('read::cfi', cfi.item(r'^pub struct BaseAddresses').clean())
+    sk.add('read::cfi', cfi.item(r'^pub enum Pointer \{').clean())
+    sk.add('read::cfi', cfi.item(r'^pub struct Augmentation \{').clean())
+    sk.add('read::cfi', UNWIND_SECTION_MODEL, label='UnwindSection-model')
+    sk.add('read::cfi', cfi.item(r'^pub struct CommonInformationEntry<R, Offset').clean(offset=False, rejrec=['R', 'Offset']).prepend('#[verifier::external_derive(Clone)]'))
+    ci = cfi.item(r'^impl<R: Reader> CommonInformationEntry<R> \{(?=\s*pub fn offset)', label='CommonInformationEntry')
+    ci.keep_only(['instructions', 'code_alignment_factor', 'data_alignment_factor']).extbody(['instructions']).clean(offset=False)
+    ci.insert_members('    pub closed spec fn g_caf(&self) -> u64 { self.code_alignment_factor }\n'
+                      '    pub closed spec fn g_daf(&self) -> i64 { self.data_alignment_factor }\n'
+                      '    pub closed spec fn g_instr(&self) -> RView { self.initial_instructions.rv() }')
+    ci.splice('instructions', ret='res', ensures=['res.wf()', 'res.inp() == self.g_instr()'])
+    ci.splice('code_alignment_factor', ret='res', ensures=['res == self.g_caf()'])
+    ci.splice('data_alignment_factor', ret='res', ensures=['res == self.g_daf()'])
+    ci.own(OWN)
+    sk.add('read::cfi', ci)
+    sk.add('read::cfi', cfi.item(r'^struct PointerEncodingParameters<').clean(offset=False, rejrec=['R']))
+    sk.add('read::cfi', cfi.item(r'^pub struct CallFrameInstructionIter<').clean(offset=False, rejrec=['R']))
+    sk.add('read::cfi', "impl<'a, R: Reader> CallFrameInstructionIter<'a, R> {\n" + need(M, 'it') + '\n}', label='CallFrameInstructionIter-ghost')
+
+    sk.add('read::cfi', cfi.item(r"^pub struct UnwindTable<'a, 'ctx, R, S = StoreOnHeap>", with_attrs=False).clean(offset=False, rejrec=['R', 'S']))
+    ut = cfi.item(r"^impl<'a, 'ctx, R, S> UnwindTable<'a, 'ctx, R, S>", label='UnwindTable')
+    ut.keep_only(['new_for_cie', 'next_row']).extbody(['next_row']).clean(offset=False)
+    ut.insert_members(need(M, 'ut') + '\n    /// the value the borrowed context will have when this table gives it back\n'
+                      '    #[verifier::prophetic] pub closed spec fn g_fctx(&self) -> UnwindContext<R::Offset, S> { *final(self.ctx) }')
+    nr = need(C, ('ut', 'next_row'))
+    # the one sentence added to next_row's (verified-elsewhere) contract: it never re-seats the context reference
+    ut.splice('next_row', ret='res', requires=nr['requires'], ensures=nr['ensures'] + [NEXT_ROW_SAME_CTX])
+    ut.splice('new_for_cie', ret='res',
+              requires=['old(ctx).wf()', '[C01:address-size-validated] valid_address_size(cie.address_size)'],
+              ensures=['res.g_wf()', '[C06:cie-table-starts-from-context] res.g_ctx() == old(ctx).abs()', '!res.g_done()', 'res.g_next() == 0',
+                       '*final(res.ctx) == *final(ctx)'],
+              owners=OWN_CTX, canary=True)
+    ut.own(OWN)
+    sk.add('read::cfi', ut)
+
+# ----------------------------------------------------------------------------------------------------------------------
+# 6. UnwindContext
 # ----------------------------------------------------------------------------------------------------------------------
 REPR_OLD = 'pub closed spec fn repr_ok(&self) -> bool { self.stack.view().len() >= (if self.hidden() { 2nat } else { 1nat }) }'
 REPR_NEW = ('pub closed spec fn repr_ok(&self) -> bool { self.stack.view().len() >= (if self.hidden() { 2nat } else { 1nat })\n'
@@ -390,7 +467,6 @@ ABSF = '|r: UnwindTableRow<T, S>| r.abs()'
 def populate_context(ctx, sk, cfi, C, M):
     sk.add('read::cfi', cfi.item(r'^pub struct UnwindContext<', with_attrs=False).clean(rejrec=['T', 'S']))
     uc = cfi.item(r'^impl<T, S> UnwindContext<T, S>', label='UnwindContext')
-    uc.drop(['initialize'])
     # R-SLICEPAT: slice patterns are outside Verus.  `match *E { [] => A, [ref rule] => B, _ => C }` becomes the equivalent match on
     # E.len() with `rule` bound to &E[0]; the scrutinee E and the three arms are kept verbatim (regex groups).
     uc.custom_re('R-SLICEPAT', r'match \*([^\n{]+?) \{\n(\s*)\[\] => ([^\n]+),\n\s*\[ref rule\] => ([^\n]+),\n',
@@ -413,6 +489,18 @@ def populate_context(ctx, sk, cfi, C, M):
         return dict(requires=c['requires'] + list(extra_req), ensures=ens + list(extra_ens))
 
     uc.splice('new_in', ret='res', canary=True, **contract('new_in'))
+    # initialize: NO precondition on the state of the context (only the static storage capacity and the validated address size of
+    # the CIE): every later call in its body (new_for_cie, next_row, save_initial_rules) has a precondition on the context that can
+    # only be discharged from reset()'s postcondition, and the tagged mid-point assertion pins the state the CIE table starts from.
+    uc.splice('initialize', ret='res',
+              requires=['[C06:storage-nonempty] Self::max_rows() >= 1', '[C01:address-size-validated] valid_address_size(cie.address_size)'],
+              ensures=['[C06:initialize-saves-initial-rules] res is Ok ==> final(self).wf() && final(self).abs().initial is Some'],
+              loops={0: '''invariant
+                table.g_wf(), table.g_ctx().initial is None, *final(table.ctx) == verif_f0,
+            decreases table.g_inp().len, (if table.g_done() { 0nat } else { 1nat })'''},
+              after=[('self.reset();', 'assert(self.abs() == ACtx::<T>::fresh() && self.wf()); // [C20:initialize-resets-first]'),
+                     ('let mut table = UnwindTable::new_for_cie(section, bases, self, cie);', 'let ghost verif_f0 = *final(table.ctx);')],
+              attrs='#[verifier::loop_isolation(false)]', owners=OWN_CTX, canary=True)
     uc.splice('reset', canary=True, **contract('reset'),
               after=[('self.is_initialized = false;', f'proof {{ assert({ROWS}.map_values({ABSF}) =~= seq![{ROWS}[0].abs()]); }}')])
     uc.splice('row', ret='res', canary=True, **contract('row', extra_ens=['res.inv()']),
